@@ -2,10 +2,13 @@ package main
 
 import (
 	"bytes"
+	"context"
 	"encoding/json"
 	"os"
 	"path/filepath"
+	"sort"
 	"strings"
+	"sync"
 
 	"github.com/ddddddO/gtree"
 )
@@ -70,6 +73,21 @@ func allOutputs(doc []byte, f Fmt4, exts []string, withFS bool) map[string]strin
 	var vs []string
 	err := gtree.WalkFromMarkdown(bytes.NewReader(doc), func(wn *gtree.WalkerNode) error { vs = append(vs, showVisit(wn)); return nil }, fmtOpts(f)...)
 	res["walk"] = showVisits(vs) + " e=" + classify(err)
+	// the massive option: same verdict and same set of visited nodes
+	{
+		var mu sync.Mutex
+		var rows []string
+		err := gtree.WalkFromMarkdown(bytes.NewReader(doc), func(wn *gtree.WalkerNode) error {
+			mu.Lock()
+			rows = append(rows, wn.Path()+"\x00"+wn.Row())
+			mu.Unlock()
+			return nil
+		}, append(fmtOpts(f), gtree.WithMassive(context.Background()))...)
+		mu.Lock()
+		sort.Strings(rows)
+		res["walk+massive"] = hxs(strings.Join(rows, "\n")) + " e=" + errClass(classify(err))
+		mu.Unlock()
+	}
 	if withFS {
 		jail := newJail()
 		defer os.RemoveAll(jail)
@@ -128,7 +146,7 @@ func runC15(ctx *Ctx) *Report {
 				if !representable(f, sps[i]) || !representable(f, sps[j]) {
 					continue
 				}
-				pairs = append(pairs, pairCase{Kind: "spell-pair", Forest: enc, S1: sps[i], S2: sps[j], Fmt: allFormats()[pi%5], Exts: extLists[pi%len(extLists)], WithFS: distinctRoots(f) && pi%4 == 0})
+				pairs = append(pairs, pairCase{Kind: "spell-pair", Forest: enc, S1: sps[i], S2: sps[j], Fmt: allFormats()[pi%len(allFormats())], Exts: extLists[pi%len(extLists)], WithFS: distinctRoots(f) && pi%4 == 0})
 			}
 		}
 	}
@@ -148,7 +166,7 @@ func runC15(ctx *Ctx) *Report {
 		if !representable(f, s1) || !representable(f, s2) {
 			continue
 		}
-		pairs = append(pairs, pairCase{Kind: "spell-pair", Forest: encForest(f), S1: s1, S2: s2, Fmt: allFormats()[k%5], Exts: extLists[k%len(extLists)]})
+		pairs = append(pairs, pairCase{Kind: "spell-pair", Forest: encForest(f), S1: s1, S2: s2, Fmt: allFormats()[k%len(allFormats())], Exts: extLists[k%len(extLists)]})
 	}
 	parallel(pairs, ctx.Workers, func(m *Model, c pairCase) {
 		diffs := runPair(m, c)
